@@ -300,16 +300,27 @@ func FuzzC11(f *testing.F) {
 	})
 }
 
-// C02, C16, C17: the generators are structured enough that the rapid bit stream is the best
-// "data provider": the fuzzer's bytes drive the same generator as the rapid property.
-func FuzzC02(f *testing.F) {
+// For the remaining properties the generators are structured enough that the rapid bit stream is the
+// best "data provider": the fuzzer's bytes drive the same generator as the rapid property, and the
+// coverage feedback steers the draws.
+func fuzzViaRapid[C any](f *testing.F, p core.Prop[C]) {
 	f.Fuzz(rapid.MakeFuzz(func(rt *rapid.T) {
-		c := Gen02(rt)
+		c := p.Gen(rt)
 		r := &core.Rec{}
-		core.SafeCheck(P02, c, r)
+		core.SafeCheck(p, c, r)
 		if r.Failed() {
-			core.SaveFuzzReplay("C02", c, r.Message())
-			rt.Fatalf("VIOLATION C02: %s", r.Message())
+			core.SaveFuzzReplay(p.ID, c, r.Message())
+			rt.Fatalf("VIOLATION %s: %s", p.ID, r.Message())
 		}
 	}))
 }
+
+func FuzzC02(f *testing.F) { fuzzViaRapid(f, P02) }
+func FuzzC06(f *testing.F) { fuzzViaRapid(f, P06) }
+func FuzzC10(f *testing.F) { fuzzViaRapid(f, P10s) }
+func FuzzC12(f *testing.F) { fuzzViaRapid(f, P12) }
+func FuzzC13(f *testing.F) { fuzzViaRapid(f, P13) }
+func FuzzC15(f *testing.F) { fuzzViaRapid(f, P15) }
+func FuzzC16(f *testing.F) { fuzzViaRapid(f, P16) }
+func FuzzC17(f *testing.F) { fuzzViaRapid(f, P17) }
+func FuzzC18(f *testing.F) { fuzzViaRapid(f, P18) }
